@@ -1,12 +1,12 @@
 SPECIFICATION Spec
 CONSTANTS
-  Program <- McMain
+  Program <- McFaultBig
   ControlTakesLock = TRUE
   FlushAtomic = TRUE
   LatchChecked = TRUE
-  CloseLatches = FALSE
+  CloseLatches = TRUE
   TimeoutReleases = FALSE
   HandlerControlPath = TRUE
   TimeoutFaultLatches = TRUE
-INVARIANTS TypeOK WholeFrames InOrder AfterClose
+INVARIANTS TypeOK LockOK MsgIntact WholeFrames AfterClose InOrder ResultsHonest
 CHECK_DEADLOCK FALSE
